@@ -1,24 +1,22 @@
 (** C03 — sort_strings yields a sorted permutation and exact LCP values.
-    Statements only; proofs live in C03/{SpecProofs,Sorters,Radix8,Dispatch}.v.  The model (C03/Model.v) is tied to
-    /repo on every run by translate/sizes_c03.py (sizeof / threshold constants) and by the correspondence run of
-    checks/C03.py (extracted model vs. the real sorters; extracted checker on the real output).
+    Statements only; proofs live in C03/{SpecProofs,Sorters,LcpInsertion,Radix8,Mkqs,Radix16,Dispatch}.v.  The model
+    (C03/Model.v) is tied to /repo on every run by translate/sizes_c03.py (sizeof / threshold constants) and by the
+    correspondence run of checks/C03.py (extracted model vs. the real sorters; extracted checker on the real output).
 
-    FULL STATEMENT aimed at (not yet closed as a whole):
-      forall sz wl fuel mem l lcp out lcp', all_nulfree l -> length lcp = length l ->
-        sort_strings sz wl fuel mem l lcp = Some (out, lcp') ->
-        SortedPerm l out /\ (wl = true -> LcpExact out lcp')
-    and the same for radixsort_CE0/CE2/CE3/CI2/CI3, multikey_quicksort and insertion_sort at every depth with a common
-    prefix.  What is proved: the specification side completely (uniqueness, checker),
-    the 8-bit radix steps and loops with their LCP-at-bucket-boundary pass for every depth / stack level / memory
-    value, both insertion sorts (with the lcp array threaded through the LCP variant), and the whole dispatch chain
-    over every memory value -- relative to three named statements about single loops of the model that are still
-    open (C03_sort_strings_partial lists them as premises):
-      MkqsOK             multikey quicksort (Bentley-Sedgewick partition loop + LCP writes)
-      InPlaceOK          the cycle-leader permutation of RadixStep_CI2 groups the array by character
-      Radix16OK          the 16-bit steps RadixStep_CE3 / CI3 (same argument as Radix8 with two levels of buckets)
-    Each of these is exercised by the correspondence run on every check (model = implementation on object order). *)
+    Proved without any assumption: the specification side (uniqueness, checker); both insertion sorts; multikey
+    quicksort (Bentley-Sedgewick partition, block swaps, recursion, LCP writes); the out-of-place 8-bit and 16-bit
+    radix steps with their LCP-at-bucket-boundary passes and bucket loops for every depth / stack level / memory
+    value; radixsort_CE0; and tlx::sort_strings / sort_strings_lcp with the default memory argument 0 ("no limit").
+
+    FULL STATEMENT still aimed at: C03_sort_strings_partial / C03_detail_sorters_partial / C03_radix_in_place_partial
+    without their two premises
+      InPlaceOK     the cycle-leader permutation of RadixStep_CI2 groups the array by character
+      InPlace16OK   the same loop in RadixStep_CI3 groups the array by character pair
+    (one loop of the model, [ci_permute]; it is only reachable with a non-zero memory limit that rules out the
+    out-of-place variants).  The correspondence run exercises it on every check (model = implementation on object
+    order). *)
 From Coq Require Import List NArith Sorting.Permutation Sorting.Sorted.
-From TLXV Require Import C03.Model C03.Spec C03.SpecProofs C03.Lemmas C03.Sorters C03.LcpInsertion C03.Radix8 C03.Dispatch.
+From TLXV Require Import C03.Model C03.Spec C03.SpecProofs C03.Lemmas C03.Sorters C03.LcpInsertion C03.Radix8 C03.Mkqs C03.Radix16 C03.Dispatch.
 Import ListNotations.
 
 (** Any two outputs satisfying SortedPermLcp for the same input have the same contents at every position and the
@@ -42,40 +40,6 @@ Theorem C03_insertion_sort : forall p l, Pre p l ->
 Proof. exact insertion_sort_ok. Qed.
 Print Assumptions C03_insertion_sort.
 
-(** One 8-bit radix step (out of place CE0/CE2, in place CI2) and the loop processing its buckets, for every fuel,
-    depth, stack level, step size and memory value: sorted permutation, lcp[0] untouched, lcp[i] exact (i >= 1) --
-    given that the sorters it hands small / memory-starved buckets to are correct. *)
-Theorem C03_radix8_partial : forall sz wl,
-  MkqsOK sz wl -> InPlaceOK ->
-  forall fuel ip szstep mem s, SorterOK wl (fun d => r8_step sz wl fuel ip szstep mem s d).
-Proof. exact (fun sz wl => r8_step_ok sz wl (insertion_ok wl)). Qed.
-Print Assumptions C03_radix8_partial.
-
-(** The dispatch chain for every memory limit (the limit only selects the algorithm). *)
-Theorem C03_sort_strings_partial : forall sz wl,
-  MkqsOK sz wl -> InPlaceOK -> Radix16OK sz wl ->
-  forall fuel mem l lcp out lcp',
-    all_nulfree l -> length lcp = length l ->
-    sort_strings sz wl fuel mem l lcp = Some (out, lcp') ->
-    SortedPerm l out /\ (wl = true -> LcpExact out lcp') /\ (wl = false -> lcp' = lcp).
-Proof. exact sort_strings_ok. Qed.
-Print Assumptions C03_sort_strings_partial.
-
-(** ... and for each selectable detail sorter of the chain, at every depth. *)
-Theorem C03_detail_sorters_partial : forall sz wl,
-  MkqsOK sz wl -> InPlaceOK -> Radix16OK sz wl ->
-  forall fuel mem,
-    SorterOK wl (fun d => radixsort_CE0 sz wl fuel mem d) /\ SorterOK wl (fun d => radixsort_CE2 sz wl fuel mem d) /\
-    SorterOK wl (fun d => radixsort_CE3 sz wl fuel mem d) /\ SorterOK wl (fun d => radixsort_CI2 sz wl fuel mem d) /\
-    SorterOK wl (fun d => radixsort_CI3 sz wl fuel mem d).
-Proof.
-  exact (fun sz wl b c d fuel mem =>
-    conj (radixsort_CE0_ok sz wl b c fuel mem) (conj (radixsort_CE2_ok sz wl b c d fuel mem)
-    (conj (radixsort_CE3_ok sz wl b c d fuel mem) (conj (radixsort_CI2_ok sz wl b c fuel mem)
-          (radixsort_CI3_ok sz wl b c d fuel mem))))).
-Qed.
-Print Assumptions C03_detail_sorters_partial.
-
 (** insertion_sort, both variants (without LCP; with the lcp array read and written as the code does), at every
     depth: sorted permutation, lcp[0] untouched, lcp[i] exact for i >= 1. *)
 Theorem C03_insertion_sorts : forall wl p l lcp out lcp',
@@ -83,6 +47,78 @@ Theorem C03_insertion_sorts : forall wl p l lcp out lcp',
   insertion wl (length p) l lcp = (out, lcp') -> OutOK wl l lcp out lcp'.
 Proof. exact (fun wl p l lcp out lcp' HP HN HL H => insertion_ok wl p l lcp out lcp' HP HN HL (f_equal Some H)). Qed.
 Print Assumptions C03_insertion_sorts.
+
+(** The partition loop of multikey quicksort (all of for(;;){...}): a permutation of the five segments, split three
+    ways by the pivot character. *)
+Theorem C03_mkqs_partition : forall pv d fuel EQL LT U GT EQR EQL' LT' GT' EQR',
+  part_loop fuel pv d EQL LT U GT EQR = Some (EQL', LT', GT', EQR') ->
+  isEQ pv d EQL -> isLT pv d LT -> isGT pv d GT -> isEQ pv d EQR ->
+  Permutation (EQL ++ LT ++ U ++ GT ++ EQR) (EQL' ++ LT' ++ GT' ++ EQR') /\
+  isEQ pv d EQL' /\ isLT pv d LT' /\ isGT pv d GT' /\ isEQ pv d EQR'.
+Proof. exact part_loop_ok. Qed.
+Print Assumptions C03_mkqs_partition.
+
+(** multikey_quicksort at every depth, fuel and memory value (pivot selection, partition, vec_swap, the three
+    recursive calls, LCP writes at the borders and inside the pivot-0 block, insertion-sort fall-back). *)
+Theorem C03_multikey_quicksort : forall sz wl fuel mem, SorterOK wl (fun d => mkqs sz wl fuel d mem).
+Proof. exact mkqs_ok. Qed.
+Print Assumptions C03_multikey_quicksort.
+
+(** One out-of-place radix step (8-bit: RadixStep_CE0/CE2, 16-bit: RadixStep_CE3) and the loop processing its buckets,
+    for every fuel, depth, stack level, step size and memory value: sorted permutation, lcp[0] untouched, lcp[i]
+    exact (i >= 1). *)
+Theorem C03_radix_out_of_place : forall sz wl fuel,
+  (forall szstep mem s, SorterOK wl (fun d => r8_step sz wl fuel false szstep mem s d)) /\
+  (forall mem s, SorterOK wl (fun d => r16_step sz wl fuel false mem s d)).
+Proof. exact (fun sz wl fuel => conj (r8_ce_ok sz wl fuel) (r16_ce_ok sz wl fuel)). Qed.
+Print Assumptions C03_radix_out_of_place.
+
+(** The in-place steps (RadixStep_CI2 / CI3): the same, given that the cycle-leader permutation groups the array. *)
+Theorem C03_radix_in_place_partial : forall sz wl, InPlaceOK -> InPlace16OK -> forall fuel,
+  (forall szstep mem s, SorterOK wl (fun d => r8_step sz wl fuel true szstep mem s d)) /\
+  (forall mem s, SorterOK wl (fun d => r16_step sz wl fuel true mem s d)).
+Proof.
+  exact (fun sz wl a b fuel =>
+    conj (r8_step_ok sz wl (insertion_ok wl) (mkqs_ok sz wl) true (fun _ => a) fuel)
+         (r16_step_ok sz wl (mkqs_ok sz wl) true (fun _ => a) (fun _ => b) fuel)).
+Qed.
+Print Assumptions C03_radix_in_place_partial.
+
+(** tlx::sort_strings / sort_strings_lcp with the default memory argument (0 = no limit): no assumption. *)
+Theorem C03_sort_strings_unlimited : forall sz wl fuel l lcp out lcp',
+  all_nulfree l -> length lcp = length l ->
+  sort_strings sz wl fuel 0 l lcp = Some (out, lcp') ->
+  SortedPerm l out /\ (wl = true -> LcpExact out lcp') /\ (wl = false -> lcp' = lcp).
+Proof. exact sort_strings_unlimited_ok. Qed.
+Print Assumptions C03_sort_strings_unlimited.
+
+(** The dispatch chain for every memory limit (the limit only selects the algorithm). *)
+Theorem C03_sort_strings_partial : forall sz wl,
+  InPlaceOK -> InPlace16OK ->
+  forall fuel mem l lcp out lcp',
+    all_nulfree l -> length lcp = length l ->
+    sort_strings sz wl fuel mem l lcp = Some (out, lcp') ->
+    SortedPerm l out /\ (wl = true -> LcpExact out lcp') /\ (wl = false -> lcp' = lcp).
+Proof. exact sort_strings_ok. Qed.
+Print Assumptions C03_sort_strings_partial.
+
+(** ... and for each selectable detail sorter of the chain, at every depth and memory value
+    (radixsort_CE0 without assumption). *)
+Theorem C03_radixsort_CE0 : forall sz wl fuel mem, SorterOK wl (fun d => radixsort_CE0 sz wl fuel mem d).
+Proof. exact radixsort_CE0_ok. Qed.
+Print Assumptions C03_radixsort_CE0.
+
+Theorem C03_detail_sorters_partial : forall sz wl,
+  InPlaceOK -> InPlace16OK ->
+  forall fuel mem,
+    SorterOK wl (fun d => radixsort_CE2 sz wl fuel mem d) /\ SorterOK wl (fun d => radixsort_CE3 sz wl fuel mem d) /\
+    SorterOK wl (fun d => radixsort_CI2 sz wl fuel mem d) /\ SorterOK wl (fun d => radixsort_CI3 sz wl fuel mem d).
+Proof.
+  exact (fun sz wl c d fuel mem =>
+    conj (radixsort_CE2_ok sz wl c d fuel mem) (conj (radixsort_CE3_ok sz wl c d fuel mem)
+    (conj (radixsort_CI2_ok sz wl c fuel mem) (radixsort_CI3_ok sz wl c d fuel mem)))).
+Qed.
+Print Assumptions C03_detail_sorters_partial.
 
 (** The LCP boundary loop as shipped (704fd0b) reads bkt_size[256] when every string ends at the current depth
     (40 empty strings); the repaired loop (fixes/C03/01) yields exactly their LCPs. *)
